@@ -2,10 +2,39 @@
 #include "dfs_types.h"
 static void mon_read_block(struct DataAccess *obj, unsigned long lba) { (void)obj; (void)lba; }
 static void mon_read_result(struct DataAccess *obj, _Bool ok) { (void)obj; (void)ok; }
+#define LOCS_MAX 8
+struct OpusCatM { unsigned long total_disc_sectors_; size_t locations_n; };      /* locations_ is the harness array h_locs */
+static struct VolumeLocation h_locs[LOCS_MAX + 1];     /* one spare element: the contracts name element g_e + 1 */
+static size_t g_e;                 /* ghost index of one volume */
 #include "VolumeLocation_set_next_sector.inc"
 #include "VolumeLocation_len.inc"
 #include "VolumeLocation_start_sector.inc"
 #include "dfs_opus.h"
+/* the extent loop walks the (sorted) volumes from the last to the first */
+#define LOC_IDX (self->locations_n - 1 - ri_)
+#define OPUS_EXTENT_LOOP_CONTRACT \
+  __CPROVER_assigns(ri_, next_sector, __CPROVER_object_whole(h_locs)) \
+  __CPROVER_loop_invariant(ri_ <= self->locations_n && g_exc == EXC_NONE && next_sector <= total_disc_sectors_) \
+  __CPROVER_loop_invariant(next_sector == (ri_ == 0 ? total_disc_sectors_ : h_locs[self->locations_n - ri_].start_sector_)) \
+  __CPROVER_loop_invariant((g_e < self->locations_n && g_e >= self->locations_n - ri_) ==> \
+     (h_locs[g_e].start_sector_ + h_locs[g_e].len_ == (g_e == self->locations_n - 1 ? total_disc_sectors_ : h_locs[g_e + 1].start_sector_) && \
+      h_locs[g_e].len_ <= total_disc_sectors_ && h_locs[g_e].start_sector_ + h_locs[g_e].len_ <= total_disc_sectors_)) \
+  __CPROVER_loop_invariant((g_e < self->locations_n) ==> h_locs[g_e].start_sector_ == __CPROVER_loop_entry(h_locs[g_e].start_sector_)) \
+  __CPROVER_loop_invariant((g_e + 1 < self->locations_n) ==> h_locs[g_e + 1].start_sector_ == __CPROVER_loop_entry(h_locs[g_e + 1].start_sector_)) \
+  __CPROVER_decreases(self->locations_n - ri_)
+#include "opus_volume_extents.inc"
+
+/* C17: when the constructor does not raise, every volume ends where the next one (by start sector) begins, the last one
+   at the end of the disc: the volumes are pairwise disjoint, in order, and lie inside [0, total_disc_sectors) */
+static void opus_volume_extents(struct OpusCatM *self)
+__CPROVER_requires(__CPROVER_is_fresh(self, sizeof(*self)) && self->locations_n <= LOCS_MAX && self->total_disc_sectors_ <= 0xFFFF && g_exc == EXC_NONE && !g_exc_by_pointer)
+__CPROVER_assigns(g_exc, g_exc_by_pointer, __CPROVER_object_whole(h_locs))
+__CPROVER_ensures(!g_exc_by_pointer)
+__CPROVER_ensures((g_exc == EXC_NONE && g_e < self->locations_n) ==>
+                  (h_locs[g_e].start_sector_ == __CPROVER_old(h_locs[g_e].start_sector_) &&
+                   h_locs[g_e].start_sector_ + h_locs[g_e].len_ == (g_e == self->locations_n - 1 ? self->total_disc_sectors_ : h_locs[g_e + 1].start_sector_) &&
+                   h_locs[g_e].start_sector_ + h_locs[g_e].len_ <= self->total_disc_sectors_));
 void h_set_next(void) { struct VolumeLocation *v; VolumeLocation_set_next_sector(v, nondet_ulong()); }
 void h_len(void) { struct VolumeLocation *v; VolumeLocation_len(v); }
 void h_start(void) { struct VolumeLocation *v; VolumeLocation_start_sector(v); }
+void h_extents(void) { struct OpusCatM *c; g_e = nondet_size_t(); __CPROVER_assume(g_e < LOCS_MAX); g_exc = EXC_NONE; g_exc_by_pointer = 0; opus_volume_extents(c); }
